@@ -478,6 +478,15 @@ def run(ctx):
         r.check(not bad, '%s-handler-%s-does-not-clean-up' % ('alarm' if how == 'sig_alarmcatch' else 'signal', h), '%s:%d' % (hf.unit, hf.line),
                 'handler (installed by %s) reaches %s: a signal arriving after the commit would destroy an accepted message (intd/<n> and todo/<n> are one file)' % (how, sorted(bad)))
 
+    # --- the message copy reports read and write errors as such
+    from rules import libtab
+    rc = rep.rule('C01.11-copy-results', 'R-TABLE', 'substdio_copy(): 0 = copied, -2 = read error, -3 = write error (main dies on the latter two; any other value would be taken for "copied")')
+    for inst, v in sorted(libtab.substdio_copy_sites(db, rep, prog).items()):
+        rc.check(v[0], inst, v[1], v[2], v[3])
+    for inst, v in sorted(libtab.substdio_read_sites(db, rep, prog).items()):
+        rc.check(v[0], inst, v[1], v[2], v[3])
+    rc.expect_min(4)
+
     # --- only leftovers of failed attempts are collected (daemon side)
     from rules import qsend
     rg = rep.rule('C01.10-collector', 'R-GUARD', 'qmail-send cleanup_do: a mess file is handed to qmail-clean only if it is older than OSSIFIED and has neither an info nor a todo entry (an accepted message always has one of them)')
